@@ -56,14 +56,14 @@ FAMILIES = {
         ("exh2", "hmm", hmm_consts(1, 2, 1, 3, 1, [0, 1], 0, [1, 3], "canon", "all", "one"), None, 600),
         # random walks through the full space: 1..3 states, weights 0..2, emissions 0..3, any state map,
         # any restriction, 1..2 sequences of length 1..4, any pair of queried state sets
-        ("sim3", "hmm", hmm_consts(1, 3, 1, 4, 2, [0, 1, 2], 0, [0, 1, 2, 3], "all", "all", "all"), 4000, 600),
+        ("sim3", "hmm", hmm_consts(2, 3, 1, 4, 2, [0, 1, 2], 0, [0, 1, 2, 3], "all", "all", "all"), 4000, 600),
         ("mix2", "mix", mix_consts(1, 2, [0, 1, 2], [0, 1, 3], 2), None, 300),
         ("mixsim", "mix", mix_consts(3, 4, [0, 1, 2, 3], [0, 1, 2, 3], 3), 500, 300),
     ],
     "thorough": [
         ("exh2", "hmm", hmm_consts(1, 2, 1, 4, 1, [0, 1], 0, [0, 1, 3], "canon", "all", "few"), None, 3000),
         ("exh2w", "hmm", hmm_consts(2, 2, 1, 3, 1, [0, 1, 2], 0, [1, 3], "canon", "single", "few"), None, 3000),
-        ("sim3", "hmm", hmm_consts(1, 3, 1, 4, 2, [0, 1, 2], 0, [0, 1, 2, 3], "all", "all", "all"), 30000, 3000),
+        ("sim3", "hmm", hmm_consts(2, 3, 1, 4, 2, [0, 1, 2], 0, [0, 1, 2, 3], "all", "all", "all"), 30000, 3000),
         ("sim3sym", "hmm", hmm_consts(2, 3, 2, 4, 2, [0, 1, 2], 0, [0, 1, 2, 3], "all", "all", "all", nsym=3), 5000, 3000),
         # spot checks beyond the exhaustive bounds: 4 states, length 5..6 (4096 paths), rows are compositions of 4
         ("sim4", "hmm", hmm_consts(4, 4, 5, 6, 1, [0, 1, 2, 3, 4], 4, [0, 1, 2, 3], "all", "all", "all"), 25, 3000),
